@@ -35,6 +35,11 @@ POOLS = {
         "GRAIN0": ({"GRAIN": 1}, 0), "GRAIN-": ({"GRAIN": 1}, -1), "GRAIN--": ({"GRAIN": 1}, -2), "GRAIN+": ({"GRAIN": 1}, 1), "e-": ({}, -1), "C-": ({"C": 1}, -1), "C--": ({"C": 1}, -2), "H": ({"H": 1}, 0), "H+": ({"H": 1}, 1),
         "C": ({"C": 1}, 0), "C+": ({"C": 1}, 1), "H2": ({"H": 2}, 0), "CH": ({"C": 1, "H": 1}, 0), "CH+": ({"C": 1, "H": 1}, 1),
     },
+    # names that *begin* like a pseudo-element or label symbol (M, o, p, m, c-, l-): Mg is an element, oH2 a labelled H2
+    "prefix": {
+        "Mg": ({"Mg": 1}, 0), "Mg+": ({"Mg": 1}, 1), "MgH": ({"Mg": 1, "H": 1}, 0), "H": ({"H": 1}, 0), "H+": ({"H": 1}, 1), "H2": ({"H": 2}, 0), "oH2": ({"H": 2}, 0), "pH2": ({"H": 2}, 0),
+        "H3+": ({"H": 3}, 1), "pH3+": ({"H": 3}, 1), "e-": ({}, -1), "C": ({"C": 1}, 0), "CH": ({"C": 1, "H": 1}, 0), "c-C3H": ({"C": 3, "H": 1}, 0), "l-C3H": ({"C": 3, "H": 1}, 0), "C2": ({"C": 2}, 0),
+    },
     # formulas that mention an element symbol in several places (composition computed by hand)
     "repeat": {
         "H": ({"H": 1}, 0), "C": ({"C": 1}, 0), "O": ({"O": 1}, 0), "N": ({"N": 1}, 0), "H2": ({"H": 2}, 0), "OH": ({"O": 1, "H": 1}, 0),
